@@ -334,7 +334,11 @@ impl Tree {
         assert!(free <= TREE_FRAMES, "{free}");
 
         // Check if transition is allowed by policy
-        if free == TREE_FRAMES && policy(self.class(), default, free) != Policy::Invalid {
+        // (a reserved tree keeps the class of its reservation until it is unreserved)
+        if free == TREE_FRAMES
+            && !self.reserved()
+            && policy(self.class(), default, free) != Policy::Invalid
+        {
             self.set_class(default);
         }
         self.with_free(free)
